@@ -74,8 +74,8 @@ def sig(f):
 
 
 def fetcher_level(ctx):
-    scripts, ns = tlc_scripts(ctx, ctx.pick(30, 800))
-    n = ctx.pick(120, 4000) + 4 + ns
+    scripts, ns = tlc_scripts(ctx, ctx.pick(30, 400))
+    n = ctx.pick(120, 2000) + 4 + ns
     summary, files = _gated.record(ctx, PKG, FILES, TEST, "fe", n, only=ctx.only, scripts=scripts)
     hangs = summary.get("hangs") or []
     if not hangs and ctx.only is None and len(files) < n:
